@@ -17,6 +17,12 @@ rm -f $dest
 git apply $d/patch.diff; applied=$?
 go build ./... >/dev/null 2>&1; built=$?
 go test -vet=off -count=1 -p 4 ./... >/tmp/sv-$$-2.log 2>&1; suite=$?
+# the repository's own suite has a known flake (TestInteropRemoteDaemonSSH: host key / landlock, see DESIGN.md 10.3):
+# when it is the ONLY failing test, run the suite again (at most twice)
+tries=1
+while [ $suite -ne 0 ] && [ $tries -lt 3 ] && [ "$(grep -E '^--- FAIL' /tmp/sv-$$-2.log | grep -v TestInteropRemoteDaemonSSH | wc -l)" = "0" ]; do
+  tries=$((tries+1)); go test -vet=off -count=1 -p 4 ./... >/tmp/sv-$$-2.log 2>&1; suite=$?
+done
 cp $d/demo_test.go $dest
 go test -vet=off -count=1 -run "$pat" $pkg >/tmp/sv-$$-3.log 2>&1; demo_patched=$?
 echo "{\"seed\":\"$d\",\"demo_unpatched_rc\":$demo_clean,\"patch_applies_rc\":$applied,\"build_rc\":$built,\"suite_with_patch_rc\":$suite,\"demo_patched_rc\":$demo_patched,\"demo\":\"$pat in $pkg\"}"
